@@ -643,7 +643,14 @@ func (c *Ctx) c18UI() {
 	}
 	var probs []string
 	nH, nT := 0, 0
-	eng.EachInstr(fn, func(in ssa.Instruction) {
+	var fns []*ssa.Function
+	for g := range p.SyncReach(fn) {
+		if eng.FuncPkgPath(g) == eng.FuncPkgPath(fn) {
+			fns = append(fns, g)
+		}
+	}
+	sortFuncs(fns)
+	visit := func(in ssa.Instruction) {
 		call, ok := in.(*ssa.Call)
 		if !ok {
 			return
@@ -675,7 +682,10 @@ func (c *Ctx) c18UI() {
 				probs = append(probs, what+" reaches the UI JSON at "+p.InstrPos(ref)+" without passing "+shortFn(want))
 			}
 		}
-	})
+	}
+	for _, g := range fns {
+		eng.EachInstr(g, visit)
+	}
 	if nH == 0 || nT == 0 {
 		probs = append(probs, "the handler no longer reads both body variants")
 	}
